@@ -67,8 +67,8 @@ CHECKS["C20"] = dict(
 
 STACK_NOTE = COMMON_NOTE + " Loop-level: the asyncio event loop, tasks and timers are MODELLED (Model/Stack.v, hop rules calibrated against CPython 3.12 under the virtual-time loop), not verified; the model never runs late (virtual time). The end-to-end refinement model-run => abstract specification is NOT proved for this property; it is checked on every run by comparing complete traces (bytes and ticks) of the model and the real stack and by judging the implementation traces with the extracted Gallina checker."
 CHECKS["C05"] = dict(
-    text="Coq theorems about the abstract per-(listener,service,source) history specification that judges every trace (alternation for EVERY input history, reboot's stopped before the same message's offered, removal once, expiry on time) + TimedStore machine invariant (C09). The end-to-end refinement of the loop model to this specification is not proved; it is checked on every run: complete model-vs-implementation traces over timed histories incl. same-iteration coincidences, implementation traces judged by the extracted check_C05. Known finding F13 (duplicate registrations).",
-    design="6 (C05)", technique="Coq proof over the abstract history specification + executable loop model with exact trace correspondence on a virtual-time asyncio loop + extracted checker", note=STACK_NOTE)
+    text="Coq theorem over WHOLE RUNS of the full stack model (every scenario and schedule, invariant kept by every TimedStore operation on the found services, every watch / unwatch / watch-all / unwatch-all call with its replay loop, every callback / loop step / run): for every recording listener never registered while already registered (ghost event; outside: known finding F13) the latest notification about (source, service) is 'offered' EXACTLY when that offer is stored and the listener is registered for it, and 'offered' / 'stopped' strictly alternate; a StopOffer removes the stored offer watched or not (fix F17). Also: Coq theorems about the abstract per-(listener,service,source) history specification that judges every trace (alternation for EVERY input history, reboot's stopped before the same message's offered, removal once, expiry on time). That the stored offers are those the inputs prescribe instant by instant is not proved (known finding F18 lives there); it is checked on every run: complete model-vs-implementation traces and call histories over timed histories incl. same-iteration coincidences and re-registration, implementation traces judged by the extracted check_C05 (static registrations: whole history; any registrations: last notification vs. most recent offer).",
+    design="6 (C05)", technique="Coq proof by invariant over whole runs of the executable loop model + abstract history specification + exact trace correspondence on a virtual-time asyncio loop + extracted checker", note=STACK_NOTE)
 CHECKS["C06"] = dict(
     text="Coq theorem over WHOLE RUNS of the full stack model (every scenario and schedule, invariant kept by every callback / loop step / run): the server listeners' notifications are a truthful, strictly alternating history - latest notification 'subscribed, accepted' exactly when the subscription is stored; 'subscribed' only for a subscription that is not live, 'unsubscribed' only for one that is; a rejected subscription is neither recorded nor reported gone. Also: Coq theorems about the abstract per-(instance,subscriber,subscription) history specification (alternation for every input history, rejected never recorded or reported, reboot before the same message's Subscribe, TTL restarted by refresh) and about handle_subscribe (listener consulted before recording, exactly one queue_send). End-to-end refinement not proved; checked on every run by exact trace correspondence and check_C06 (incl. positive-Ack-implies-recorded).",
     design="6 (C06)", technique="Coq proof over the abstract history specification + function-level theorems + exact trace correspondence + extracted checker", note=STACK_NOTE)
